@@ -485,9 +485,19 @@ pub fn arb_keytext(limit: usize) -> BoxedStrategy<String> {
     .boxed()
 }
 
+/// Short-term passwords: also lengths around the HMAC block size (64 bytes) and beyond, where HMAC hashes the key.
+pub fn arb_password() -> BoxedStrategy<String> {
+    prop_oneof![
+        4 => arb_keytext(40),
+        2 => (proptest::sample::select(vec![55usize, 56, 63, 64, 65, 66, 100, 127, 128, 129, 200]), proptest::sample::select(vec![0u8, 1, 3]), proptest::collection::vec(any::<u16>(), 1..8))
+            .prop_map(|(len, alpha, seed)| build_string(len, alpha, &seed)),
+    ]
+    .boxed()
+}
+
 pub fn arb_key() -> BoxedStrategy<KeySpec> {
     prop_oneof![
-        arb_keytext(40).prop_map(KeySpec::ShortTerm),
+        arb_password().prop_map(KeySpec::ShortTerm),
         (arb_keytext(30), prop_oneof![arb_quoted_simple(), arb_keytext(30)], arb_keytext(30), 1u16..=2).prop_map(|(user, realm, password, alg)| {
             KeySpec::LongTerm {
                 user,
